@@ -118,7 +118,7 @@ class C07(Prop):
                    "computed from' can be identified by tag",)
 
     def gen(self, rng, tier):
-        n_tg, n_sg = {"quick": (130, 50), "thorough": (1500, 600), "extended": (800, 300)}[tier]
+        n_tg, n_sg = {"quick": (130, 50), "thorough": (600, 200), "extended": (400, 150)}[tier]
         cases = []
         for _ in range(n_tg):
             c = netlib.gen_tg_net(rng, big=(tier != "quick"), quirk_p=0.05)
